@@ -45,7 +45,7 @@ func flipBit(b []byte, i int) []byte {
 }
 
 func runC19(r *Run, rng *Rng, thorough bool) {
-	nHist := 250
+	nHist := 1200
 	if thorough {
 		nHist = 20000
 	}
